@@ -153,31 +153,46 @@ func UncachedNames() []string {
 // StatefulRequestNames returns the 5 names (spec spelling) for generators.
 func StatefulRequestNames() []string { return append([]string{}, statefulRequestNames...) }
 
-// Directives tokenises every Cache-Control field value into directive names
-// (lower-cased).  RFC 7234 section 5.2: Cache-Control = 1#cache-directive,
-// cache-directive = token [ "=" ( token / quoted-string ) ]; RFC 7230 section 7: list
-// elements are separated by commas with optional whitespace, empty elements are
-// ignored.  Quoted-string arguments containing commas are outside the alphabet of
-// C09 (they would need a real tokenizer; the property text does not settle them).
+// Directives tokenises the Cache-Control field into directive names (lower-cased).  RFC 7234 section 5.2:
+// Cache-Control = 1#cache-directive, cache-directive = token [ "=" ( token / quoted-string ) ]; RFC 7230
+// section 7: list elements are separated by commas with optional whitespace, empty elements are ignored;
+// section 3.2.6: quoted-string = DQUOTE *( qdtext / quoted-pair ) DQUOTE - a comma inside a quoted-string
+// does not end the element.  Several field lines are one list (section 3.2.2: they are combined with ","),
+// which is also the only form a signed exchange has once it is serialized.  A DQUOTE that is never closed does
+// not start a quoted-string (the alphabet of C09 contains none).
 func Directives(fieldValues []string) map[string]bool {
 	out := map[string]bool{}
-	for _, fv := range fieldValues {
-		start := 0
-		for i := 0; i <= len(fv); i++ {
-			if i < len(fv) && fv[i] != ',' {
-				continue
-			}
-			elem := strings.Trim(fv[start:i], " \t")
+	fv := strings.Join(fieldValues, ",")
+	var elems []string
+	start, quote := 0, -1
+	for i := 0; i < len(fv); i++ {
+		switch ch := fv[i]; {
+		case quote >= 0 && ch == '\\':
+			i++
+		case ch == '"' && quote >= 0:
+			quote = -1
+		case ch == '"':
+			quote = i
+		case ch == ',' && quote < 0:
+			elems = append(elems, fv[start:i])
 			start = i + 1
-			if elem == "" {
-				continue
-			}
-			name := elem
-			if eq := strings.IndexByte(elem, '='); eq >= 0 {
-				name = strings.TrimRight(elem[:eq], " \t")
-			}
-			out[strings.ToLower(name)] = true
 		}
+	}
+	if quote >= 0 {
+		elems = append(elems, strings.Split(fv[start:], ",")...)
+	} else {
+		elems = append(elems, fv[start:])
+	}
+	for _, elem := range elems {
+		elem = strings.Trim(elem, " \t")
+		if elem == "" {
+			continue
+		}
+		name := elem
+		if eq := strings.IndexByte(elem, '='); eq >= 0 {
+			name = strings.TrimRight(elem[:eq], " \t")
+		}
+		out[strings.ToLower(name)] = true
 	}
 	return out
 }
